@@ -242,3 +242,16 @@ V("C15", "masked-not-cleared", PYR, "                buf = masked_mode.make_mask
 V("C15", "mode-duplicated", IMG, "        if self.mode in (ImageMode.RGB, ImageMode.U8, ImageMode.I16, ImageMode.I32):\n            return False", "        if self.mode in (ImageMode.RGB, ImageMode.RGBA, ImageMode.U8, ImageMode.I16, ImageMode.I32):\n            return False", "C15.R")
 V("C15", "P-branch-order", IMG, "        if self.mode in (ImageMode.RGB, ImageMode.U8, ImageMode.I16, ImageMode.I32):\n            return False\n        elif self.mode in (ImageMode.F32, ImageMode.F64, ImageMode.F16x3):\n            return np.all(np.isnan(i))",
   "        if self.mode in (ImageMode.F64, ImageMode.F32, ImageMode.F16x3):\n            return np.all(np.isnan(i))\n        elif self.mode in (ImageMode.I32, ImageMode.RGB, ImageMode.U8, ImageMode.I16):\n            return False", "HOLDS")
+
+# ---------------------------------------------------------------- C16
+V("C16", "negate-cd21", IMG, '    h["CD1_2"] *= -1\n    h["CD2_2"] *= -1', '    h["CD2_1"] *= -1\n    h["CD2_2"] *= -1', "C16.R1")
+V("C16", "h-minus-crpix", IMG, '        image_height + 1 - h["CRPIX2"]', '        image_height - h["CRPIX2"]', "C16.R1")
+V("C16", "width", IMG, "        self._wcs = _flip_wcs_parity(self._wcs, self.height)\n        self._array = self.asarray()[::-1]", "        self._wcs = _flip_wcs_parity(self._wcs, self.width)\n        self._array = self.asarray()[::-1]", "C16.R2")
+V("C16", "flip-columns", IMG, "        self._array = self.asarray()[::-1]", "        self._array = self.asarray()[:, ::-1]", "C16.R2")
+V("C16", "ensure-on-minus", IMG, "        if self.get_parity_sign() == 1:\n            self.flip_parity()\n        return self\n\n    def _as_writeable_array", "        if self.get_parity_sign() == -1:\n            self.flip_parity()\n        return self\n\n    def _as_writeable_array", "C16.R3")
+V("C16", "det-sign", IMG, "    if det < 0:\n        return 1  # yes!", "    if det > 0:\n        return 1  # yes!", "C16.R3")
+V("C16", "cd-wrong-cdelt", IMG, '    h["CD1_2"] = h["CDELT1"] * h.setdefault("PC1_2", 0.0)', '    h["CD1_2"] = h["CDELT2"] * h.setdefault("PC1_2", 0.0)', "C16.R1")
+V("C16", "keep-pc", IMG, '    for hn in "CDELT1 CDELT2 PC1_1 PC1_2 PC2_1 PC2_2".split():', '    for hn in "CDELT1 CDELT2".split():', "C16.R1")
+V("C16", "desc-no-flip", IMG, "        self.wcs = _flip_wcs_parity(self.wcs, self.height)\n        return self", "        return self", "C16.R2")
+V("C16", "P-neg-spelling", IMG, '    h["CD1_2"] *= -1\n    h["CD2_2"] *= -1', '    h["CD1_2"] = -h["CD1_2"]\n    h["CD2_2"] = 0 - h["CD2_2"]', "HOLDS")
+V("C16", "P-get-instead-of-setdefault", IMG, '    h["CD2_1"] = h["CDELT2"] * h.setdefault("PC2_1", 0.0)', '    h["CD2_1"] = h.get("PC2_1", 0.0) * h["CDELT2"]', "HOLDS")
